@@ -9,7 +9,7 @@ HERE=/verif
 J=4; TIER=quick; KEEP=0; BASE=seeded
 while getopts "j:t:kd:" o; do case $o in j) J=$OPTARG;; t) TIER=$OPTARG;; k) KEEP=1;; d) BASE=$OPTARG;; esac; done
 shift $((OPTIND-1))
-SEL="${@:-C}"
+SEL="${@:-}"; [ -z "$SEL" ] && SEL="$(ls $HERE/$BASE)"
 IDS=""
 for s in $SEL; do for d in $HERE/$BASE/$s*/; do [ -f "$d/patch.diff" ] && IDS="$IDS $(basename $d)"; done; done
 IDS=$(echo $IDS | tr ' ' '\n' | sort -u)
